@@ -16,7 +16,8 @@ RULE = ('Generated Yahoo-format CSV files (1-2 symbols with different first date
         '14:29:59, 14:30:00, 14:30:01, 20:59:59, 21:00:00, 21:00:01, 23:59}, days before the first bar, after the '
         'last, weekends, random). Oracle 1: pure-Python point-in-time lookup over the raw rows (observations '
         'date+14:30 open\', date+21:00 close\', forward-filled in time order; last observation at or before t; NaN if '
-        'none), compared NaN-aware at 1e-12 with get_bid, get_ask and the handler\'s bid/ask/pair/mid; unknown symbol '
+        'none), compared NaN-aware at 1e-12 with get_bid, get_ask and the handler\'s bid/ask/pair/mid (also a handler '
+        'over two single-symbol sources); unknown symbol '
         '-> NaN through the handler. Oracle 2 (metamorphic): the answer at t is bit-identical when every row whose '
         'open lies after t is rewritten or deleted and when the row order is permuted. Non-trivial = some row lies '
         'after t, or t precedes the first bar, or the answer needed a forward fill; distinct = distinct case JSON.')
